@@ -28,4 +28,18 @@ CHECKS = {
                   "quick": {"count": 6000, "budget": 60, "workers": 8},
                   "thorough": {"count": 200000, "budget": 900, "workers": 16}}],
     },
+    "C09": {
+        "level": "exploration",
+        "rule": ("one evaluation = one simulated run of a generated model (1-6 wells, group tree depth <= 4, WEFAC/GEFAC incl. changes at later "
+                 "steps and from ACTIONX bodies, history and prediction wells, shut/stopped wells, 4 unit systems) through the real "
+                 "Summary::eval with a plan-chosen ministep cut of every report step; after every ministep ~30 vectors per well, ~30 per group "
+                 "and field plus TIME/YEARS/DAY/MONTH/YEAR are compared with a reference accumulator. distinct = hash of (units, wells and "
+                 "their kind/group, groups, report steps, ministeps, firings); non-trivial = >= 2 ministeps and > 50 comparisons"),
+        "assumptions": ["UnitSystem conversion factors are trusted (C02 is out of scope)",
+                        "history vectors are compared with the rates the Schedule's public control getters return",
+                        "the reference accumulator follows the efficiency-factor rule documented in Summary.cpp (well rates unscaled; totals scaled by WEFAC and every GEFAC up the tree; group rates by factors below the group; field by all)"],
+        "bins": [{"name": "c09", "srcs": ["scen/c09_summary.cpp", "scen/srun/model.cpp", "scen/srun/driver.cpp"],
+                  "quick": {"count": 400, "budget": 70, "workers": 8},
+                  "thorough": {"count": 100000, "budget": 900, "workers": 16}}],
+    },
 }
